@@ -2539,6 +2539,16 @@ FROM (
             return node
         return None
 
+    def _has_membership(self, node: AST.AST) -> bool:
+        """True when the expression reads a dataset component through DS#component."""
+        if isinstance(node, AST.BinOp):
+            if node.op == tokens.MEMBERSHIP:
+                return True
+            return self._has_membership(node.left) or self._has_membership(node.right)
+        if isinstance(node, (AST.UnaryOp, AST.ParFunction)):
+            return self._has_membership(node.operand)
+        return False
+
     def _build_dataset_if(self, node: AST.If) -> str:
         """Build SQL for dataset-level IF-THEN-ELSE with JOINs."""
         # Find the source dataset that the condition references
@@ -2553,7 +2563,18 @@ FROM (
             and self._get_node_type(node.condition.left) == _DATASET
             and self._get_node_type(node.condition.right) == _DATASET
         )
-        cond_ds = self._get_dataset_structure(node.condition) if cond_is_ds_vs_ds else None
+        # Likewise for any other dataset-level expression (DS_1 > 3, not DS_b, isnull(DS_1), ...):
+        # only a condition over DS#component can be evaluated as a column expression below.
+        cond_is_ds_expr = (
+            not isinstance(node.condition, AST.VarID)
+            and self._get_node_type(node.condition) == _DATASET
+            and not self._has_membership(node.condition)
+        )
+        cond_ds = (
+            self._get_dataset_structure(node.condition)
+            if cond_is_ds_vs_ds or cond_is_ds_expr
+            else None
+        )
         if cond_ds is not None:
             source_sql = self.visit(node.condition)
             source_ids = list(cond_ds.get_identifiers_names())
